@@ -780,7 +780,11 @@ def renderHeader (k : ColorCtx) (d : Doc) (p : Prep) (isFirst : Bool) (idx : Nat
     if n = 0 then throw "model:header without cells"
     let A ← h.attrs.mapM Attr.toNested
     let hw := h.colRelWidth.map fun w => Widths.headerDisplayed w p.keep n
-    let A := if isFirst && idx == 0 && d.page.borderFirst != "" then
+    -- `not header_elements`: this is the first header object that renders anything on the page
+    let firstRendered := (d.headers.take idx).all fun h' => match h' with
+      | some h' => !(h'.text.isSome || d.body.asColheader)
+      | none => true
+    let A := if isFirst && firstRendered && d.page.borderFirst != "" then
         { A with bTop := A.bTop.map fun _ => [List.replicate n (Val.str d.page.borderFirst)] }
       else A
     let v := match hw with
